@@ -5,6 +5,14 @@ use vstd::sim::Rng;
 
 pub mod beans;
 pub mod coroutine;
+pub mod hooks;
+pub mod netio;
+#[cfg(feature = "preemptive")]
+pub mod preempt;
+pub mod stack;
+pub mod timehelp;
+#[cfg(feature = "io_uring")]
+pub mod uring;
 pub mod queues;
 pub mod sched;
 pub mod tasks;
@@ -41,6 +49,19 @@ pub fn all() -> Vec<&'static Scenario> {
     v.push(&tasks::POOL);
     v.push(&tasks::POOL_PRIO);
     v.push(&tasks::RT);
+    v.push(&hooks::SOCKIO);
+    v.push(&hooks::SOCKOPT);
+    v.push(&hooks::TIMED);
+    v.push(&hooks::SLEEPERS);
+    v.push(&netio::READY);
+    v.push(&netio::INTEREST);
+    v.push(&stack::GROW);
+    v.push(&stack::FAULTS);
+    v.push(&timehelp::TIMEHELP);
+    #[cfg(feature = "preemptive")]
+    v.push(&preempt::PREEMPT);
+    #[cfg(feature = "io_uring")]
+    v.push(&uring::URING);
     v
 }
 
@@ -57,6 +78,10 @@ pub struct SimOpts {
     pub stall: bool,
     pub spurious: bool,
     pub late_signals: bool,
+    /// the scenario has upper bounds on elapsed simulated time: only strategies under which a
+    /// runnable thread is scheduled promptly (the simulator must not be the one that starves it),
+    /// and a small time charge per scheduling point
+    pub timing: bool,
 }
 
 impl Default for SimOpts {
@@ -68,6 +93,7 @@ impl Default for SimOpts {
             stall: false,
             spurious: false,
             late_signals: false,
+            timing: false,
         }
     }
 }
@@ -75,7 +101,15 @@ impl Default for SimOpts {
 /// The "sim" section of a plan: strategy, time charge, fault rates, knobs (swarm: varied per run).
 pub fn gen_sim(g: &mut Rng, o: SimOpts) -> J {
     let mut s = obj! {};
-    if o.concurrent {
+    if o.concurrent && o.timing {
+        if g.chance(1, 2) {
+            s.set("strategy", "sticky".into());
+            s.set("p_ppm", (*g.pick(&[250_000u64, 500_000, 800_000])).into());
+        } else {
+            s.set("strategy", "rr".into());
+            s.set("q", (*g.pick(&[1u64, 2, 3, 5, 8])).into());
+        }
+    } else if o.concurrent {
         match g.below(10) {
             0..=5 => {
                 s.set("strategy", "sticky".into());
@@ -95,7 +129,7 @@ pub fn gen_sim(g: &mut Rng, o: SimOpts) -> J {
         s.set("strategy", "sticky".into());
         s.set("p_ppm", 0u64.into());
     }
-    s.set("delta_ns", (*g.pick(&[100u64, 1_000, 1_000, 1_000, 10_000])).into());
+    s.set("delta_ns", (*g.pick(if o.timing { &[100u64, 1_000, 1_000, 1_000, 1_000] } else { &[100u64, 1_000, 1_000, 1_000, 10_000] })).into());
     s.set("max_points", o.max_points.into());
     s.set("max_sim_ms", o.max_sim_ms.into());
     if o.stall && g.chance(1, 3) {
@@ -113,7 +147,10 @@ pub fn gen_sim(g: &mut Rng, o: SimOpts) -> J {
         obj! {
             "num_cpus" => g.range(1, 4),
             "dashmap.shards" => *g.pick(&[1u64, 2, 4, 4, 16, 64]),
-            "queue.local_capacity" => *g.pick(&[1u64, 2, 3, 4, 8, 16, 64, 256]),
+            // an overflowing local queue hands coroutines to the shared queue, which is only looked at
+            // every 61st pop while local work exists: fine for safety properties, but it is a load
+            // effect that the timing scenarios (a handful of coroutines) must not fake
+            "queue.local_capacity" => *g.pick(if o.timing { &[64u64, 64, 256, 256, 256, 256, 256, 256] } else { &[1u64, 2, 3, 4, 8, 16, 64, 256] }),
         },
     );
     s
